@@ -129,7 +129,7 @@ func c05Gen(r *hx.R, tier string, out *hx.Out) []string {
 				}
 				ms = append(ms, strings.ReplaceAll(m.Line(), " ", ";"))
 			}
-			ls = append(ls, fmt.Sprintf("rawstream limit=%d chunk=%d cseed=%d tail=%s msgs=%s", 1<<30, r.Intn(4), r.Intn(1000), hx.Hex(r.AnyBytes(r.Pick(0, 0, 1, 3, 5))), strings.Join(ms, "|")))
+			ls = append(ls, fmt.Sprintf("rawstream limit=%d chunk=%d cseed=%d reuse=%d tail=%s msgs=%s", 1<<30, r.Intn(4), r.Intn(1000), r.Intn(2), hx.Hex(r.AnyBytes(r.Pick(0, 0, 1, 3, 5))), strings.Join(ms, "|")))
 		default: // unpack of arbitrary / mutated bytes
 			ls = append(ls, c05GenUnpack(r))
 		}
@@ -202,9 +202,15 @@ func packErrKind(err error) string {
 	}
 }
 
-// unpackOne runs the real rawProto.Unpack once on the given proto/reader.
+// unpackOne runs the real rawProto.Unpack once on the given proto/reader into a new message.
 func unpackOne(p socket.Proto) (m *M, class string) {
-	msg := socket.NewMessage(socket.WithNewBody(func(socket.Header) interface{} { return new([]byte) }))
+	return unpackInto(p, socket.NewMessage())
+}
+
+// unpackInto unpacks into the given message object after Reset, the way the session's read loop
+// re-uses its context's input message (pooled objects must behave like new ones: C20).
+func unpackInto(p socket.Proto, msg socket.Message) (m *M, class string) {
+	msg.Reset(socket.WithNewBody(func(socket.Header) interface{} { return new([]byte) }))
 	var err error
 	func() {
 		defer func() {
@@ -306,8 +312,15 @@ func c05Run(line string, out *hx.Out) (string, bool) {
 		p := socket.RawProtoFunc(rd)
 		var shows []string
 		end := ""
+		reused := socket.NewMessage()
 		for i := 0; ; i++ {
-			got, class := unpackOne(p)
+			var got *M
+			var class string
+			if f["reuse"] == "1" {
+				got, class = unpackInto(p, reused)
+			} else {
+				got, class = unpackOne(p)
+			}
 			if class != "ok" {
 				end = class
 				break
